@@ -4,6 +4,7 @@ pub mod c01;
 pub mod c02;
 pub mod c03;
 pub mod c04;
+pub mod c05;
 pub mod c06;
 pub mod c07;
 pub mod c08;
@@ -23,6 +24,7 @@ pub fn run(ctx: &Ctx) -> i32 {
         "C02" => c02::run(ctx),
         "C03" => c03::run(ctx),
         "C04" => c04::run(ctx),
+        "C05" => c05::run(ctx),
         "C06" => c06::run(ctx),
         "C07" => c07::run(ctx),
         "C08" => c08::run(ctx),
@@ -59,6 +61,7 @@ pub fn replay(ctx: &Ctx, path: &str) -> i32 {
         "C02" => c02::replay(ctx, &body),
         "C03" => c03::replay(ctx, &body),
         "C04" => c04::replay(ctx, &body),
+        "C05" => c05::replay(ctx, &body),
         "C06" => c06::replay(ctx, &body),
         "C07" => c07::replay(ctx, &body),
         "C08" => c08::replay(ctx, &body),
